@@ -55,6 +55,8 @@ def make_scenario(cfg, path, offs):
             f = F.MapAccessFile(path, {"k%d" % i: o for i, o in enumerate(offs)})
 
         def read(i):
+            if i == "next":
+                return next(itstate["it"])
             if i == "open":
                 f.open()
                 return "open"
@@ -66,17 +68,38 @@ def make_scenario(cfg, path, offs):
                 return f["k%d" % i].rstrip("\n")
             return f[i]
         f.open()
-        pre = [read(i) for i in cfg.pre]
+        itstate = {"it": None, "pos": 0}
+        pre = []
+        for i in cfg.pre:
+            if i == "iter2":
+                # an iteration is started before the fork and has delivered two lines; every process then owns a
+                # copy of it and continues it with "next"
+                itstate["it"] = iter(f)
+                pre.append(next(itstate["it"]))
+                pre.append(next(itstate["it"]))
+                itstate["pos"] = 2
+            else:
+                pre.append(read(i))
         ctx.idx = 0
         gc = cfg.grandchild
+
+        def result_of(i):
+            if i == "next":
+                want = itstate["pos"]
+                itstate["pos"] += 1
+                return (want, _digest(read(i)))
+            return (i, _digest(read(i)))
 
         def proc_main(idx):
             res = []
             kids = []
+            fork_at = (gc[2] if len(gc) > 2 else 1) if gc is not None else None
+            if gc is not None and gc[0] == idx and fork_at == 0:
+                kids = ctx_fork(ctx, [gc[1]], proc_main)       # forks before it has touched the file itself
             for n, i in enumerate(cfg.reads[idx]):
-                if gc is not None and gc[0] == idx and n == 1:
+                if gc is not None and gc[0] == idx and n == fork_at and n > 0:
                     kids = ctx_fork(ctx, [gc[1]], proc_main)
-                res.append((i, _digest(read(i))))
+                res.append(result_of(i))
             ctx.done(res)
             for k in kids:
                 os.waitpid(k, 0)
@@ -84,7 +107,7 @@ def make_scenario(cfg, path, offs):
         pids = ctx_fork(ctx, children, proc_main)
         res = []
         for i in cfg.reads.get(0, []):
-            res.append((i, _digest(read(i))))
+            res.append(result_of(i))
         ctx.done([("pre", [_digest(x) for x in pre])] + res)
         for p in pids:
             os.waitpid(p, 0)
@@ -105,7 +128,10 @@ def judge(cfg, r):
     for idx, res in sorted(r.value.items()):
         for item in res:
             if item[0] == "pre":
-                for k, dg in zip(cfg.pre, item[1]):
+                exp_pre = []
+                for k in cfg.pre:
+                    exp_pre += [0, 1] if k == "iter2" else [k]
+                for k, dg in zip(exp_pre, item[1]):
                     if dg != (str(k), LINE, True):
                         v.append(("C18", {"variant": cfg.variant, "kind": "wrong-line", "where": "before-fork"},
                                   "%s: unscheduled read before fork returned %r" % (cfg.name, dg), {}))
@@ -136,6 +162,15 @@ def plan_for(tier):
         plan.append((Cfg("%s/2p-child-opens" % variant, variant, [4], {0: [0, 2], 1: ["open", 3, 1]}), None if not q else 3))
         plan.append((Cfg("%s/2p-parent-opens" % variant, variant, [1], {0: ["open", 0, 2], 1: [3, 4]}), None if not q else 3))
         plan.append((Cfg("%s/2p-child-reenters" % variant, variant, [], {0: [2, 0], 1: [1, "reenter", 3]}), 2 if q else None))
+        if variant != "map":
+            # an iteration started before the fork is continued in the parent and in the child
+            plan.append((Cfg("%s/2p-iteration-resumed" % variant, variant, ["iter2"], {0: ["next", 4], 1: ["next", "next"]}),
+                         None if not q else 3))
+        # the child's first read is the line right behind the one the parent read before the fork
+        plan.append((Cfg("%s/2p-next-line" % variant, variant, [1], {0: [3, 0], 1: [2, 4]}), None if not q else 3))
+        # a child that never touches the file forks a grandchild that does (parent reads concurrently)
+        plan.append((Cfg("%s/idle-child-grandchild" % variant, variant, [2], {0: [0, 3], 1: [], 2: [4, 1]}, grandchild=(1, 2, 0)),
+                     None if not q else 3))
         # parent + 2 children
         plan.append((Cfg("%s/3p" % variant, variant, [2], {0: [0, 3], 1: [4, 1], 2: [1, 4]}), 2 if q else 3))
         if not q:
